@@ -53,6 +53,9 @@ SCALAR_ATOMS = {
     "pow-2@0": (_powc(-2), 0.0, "-big", 1.3),
     "pow0.5@0": (_powc(0.5), 0.0, "+big", 1.3),
     "pow-0.5@0": (_powc(-0.5), 0.0, "-big", 1.3),
+    "pow1.5@neg": (_powc(1.5), -0.5, "zero", 1.3),
+    "pow2.5@neg": (_powc(2.5), -0.75, "zero", 1.3),
+    "sqrt@neg": (_fn("sqrt"), -0.5, "zero", 1.3),
     "recip@0": (lambda v: ["bin", "/", ["raw", 1.0, "float"], v], 0.0, "-big", 1.3),
     "asin@1": (_fn("asin"), 1.0, "+big", 0.4),
     "asin@-1": (_fn("asin"), -1.0, "+big", 0.4),
@@ -70,6 +73,8 @@ VECTOR_ATOMS = {
     "vpowsum:-1@0": (lambda V: ["sum", ["vpow", V, -1]], _powc(-1.0), 0.0, "-big", 1.3),
     "vpowsum:-2@0": (lambda V: ["sum", ["vpow", V, -2]], _powc(-2.0), 0.0, "-big", 1.3),
     "vpowsum:0.5@0": (lambda V: ["sum", ["vpow", V, 0.5]], _powc(0.5), 0.0, "+big", 1.3),
+    "vpowsum:1.5@neg": (lambda V: ["sum", ["vpow", V, 1.5]], _powc(1.5), -0.5, "zero", 1.3),
+    "vpowsum:2.5@neg": (lambda V: ["sum", ["vpow", V, 2.5]], _powc(2.5), -0.75, "zero", 1.3),
     "norm1@0": (lambda V: ["norm", V, 1, "method"], _fn("abs"), 0.0, "zero", 1.3),
 }
 VRELS = ["exact", "permuted", "superset", "superset_permuted"]
@@ -88,6 +93,8 @@ REGULAR = [
     None,
     ["bin", "+", ["bin", "*", ["fn", "sin", ["var", "s"]], ["var", "t"]], ["bin", "**", ["var", "s"], ["raw", 2, "int"]]],
     ["bin", "*", ["raw", 3.0, "float"], ["fn", "exp", ["bin", "*", ["raw", 0.5, "float"], ["var", "t"]]]],
+    # a regular entry far beyond 1e16 in the same array as the singular ones: it must come back unchanged
+    ["bin", "+", ["fn", "exp", ["bin", "*", ["raw", 50.0, "float"], ["var", "t"]]], ["bin", "/", ["raw", 1.0, "float"], ["bin", "*", ["raw", 1e-9, "float"], ["var", "s"]]]],
 ]
 
 
@@ -356,7 +363,7 @@ def directed_items():
     for k, aname in enumerate(SCALAR_ATOMS):
         for coef in (1.0, 3.0, -2.0):
             for reg in (0, 1):
-                items.append({"terms": [(coef, aname, "a", True)], "regular": reg, "vrel": VRELS[(k + reg) % 4],
+                items.append({"terms": [(coef, aname, "a", True)], "regular": reg if coef != -2.0 or reg == 0 else 3, "vrel": VRELS[(k + reg) % 4],
                               "multirow": coef != 3.0, "cell": aname})
         # two atoms, one singular one regular
         other = list(SCALAR_ATOMS)[(k + 5) % len(SCALAR_ATOMS)]
@@ -366,7 +373,7 @@ def directed_items():
         for vrel in VRELS:
             for sidx in ((0,), (1, 3), (0, 1, 2, 3), ()):
                 for coef in (1.0, -1.5):
-                    items.append({"terms": [(coef, aname, "x", sidx)], "regular": (k + len(sidx)) % 3, "vrel": vrel,
+                    items.append({"terms": [(coef, aname, "x", sidx)], "regular": (k + len(sidx)) % 4, "vrel": vrel,
                                   "cell": aname, "vec_cell": True})
     for vrel in VRELS:
         items.append({"terms": [(1.0, "norm2", "y", "origin")], "regular": 0, "vrel": vrel, "cell": "norm2@origin"})
@@ -389,7 +396,7 @@ def random_item(rng):
         else:
             sidx = tuple(sorted(rng.sample(range(4), rng.randint(0, 4))))
             terms.append((rng.choice([1.0, 2.0, -1.5]), an, "x", sidx))
-    return {"terms": terms, "regular": rng.randrange(3), "vrel": rng.choice(VRELS), "multirow": rng.random() < 0.3, "cell": "random"}
+    return {"terms": terms, "regular": rng.randrange(4), "vrel": rng.choice(VRELS), "multirow": rng.random() < 0.3, "cell": "random"}
 
 
 def run(ctx, rec):
